@@ -258,12 +258,58 @@ def _ob_groups(si: int, choice: int) -> bool:
         return check(si, choice)
 
 
+# ---- Z: a segment that has no place in the structure, anywhere in the instance ------------------------------------------------
+ZBASES = [((1 << NBITS) - 1) * 9, 0, ((1 << NBITS) - 1) * 9 + 4]     # all optional children once / required only / all + both groups twice
+ZMAXPOS = 14
+
+
+def zcheck(si, base, pos, trace=None):
+    """a Z segment inserted after the pos-th segment of an instance: it may end up anywhere in the tree, but flattening still gives
+    the input sequence, the declared-child walk holds for everything else, and find_groups=False encodes identically"""
+    reset_defaults()
+    v, mname = STRUCTS[si]
+    ref = ref_of(v, mname)
+    choice = ZBASES[base]
+    nodes = expand(ref, _State(choice // 9, ((choice % 9) % 3, (choice % 9) // 3)))
+    names = flatten(nodes)
+    if pos > len(names):
+        return True
+    names = names[:pos] + ['ZZZ'] + names[pos:]
+    mtype = mname.split('_')
+    msh = 'MSH|^~\\&|A|B|||2020||%s^%s^%s|1|P|%s' % (mtype[0], mtype[1] if len(mtype) > 1 else '', mname, v)
+    text = '\r'.join([msh] + [line(n, k + 1) for k, n in enumerate(names)])
+    m = parse_message(text, validation_level=2, find_groups=True)
+    got = [ln[:3] for ln in m.to_er7().split('\r')[1:]]          # (segment names: what a line re-encodes to is C01's subject)
+    want = list(names)
+    flat = parse_message(text, validation_level=2, find_groups=False).to_er7()
+    ok = got == want and flat == m.to_er7() and flatten(real_tree(m)) == ['MSH'] + names
+    if trace is not None:
+        trace.append('%s %s base %d, ZZZ after segment %d\n  input  %r\n  output %r\n  tree %r\n  find_groups=False encodes %r' % (
+            v, mname, base, pos, want, got, real_tree(m), flat))
+    return ok
+
+
+def _ob_zseg(si: int, base: int, pos: int) -> bool:
+    """
+    pre: 0 <= si < NS and 0 <= base < 3 and 0 <= pos <= ZMAXPOS
+    pre: in_part(si)
+    post: _
+    """
+    si, base, pos = bsearch(si, NS), bsearch(base, 3), bsearch(pos, ZMAXPOS + 1)
+    with concrete():
+        return zcheck(si, base, pos)
+
+
 def explain(call):
     m = re.match(r'(\w+)\((.*)\)$', call, re.S)
     a, kw = eval('(lambda *a, **k: (a, k))(%s)' % m.group(2))
-    v = dict(zip(['si', 'choice'], a)); v.update(kw)
     tr = []
     try:
+        if m.group(1) == '_ob_zseg':
+            v = dict(zip(['si', 'base', 'pos'], a)); v.update(kw)
+            zcheck(v['si'], v['base'], v['pos'], tr)
+            return '\n'.join(tr)
+        v = dict(zip(['si', 'choice'], a)); v.update(kw)
         check(v['si'], v['choice'], tr)
     except Exception as e:
         tr.append('raised %s: %s' % (type(e).__name__, e))
@@ -286,5 +332,8 @@ SPEC = {
     'obligations': [
         {'name': 'groups', 'fn': '_ob_groups', 'parts': 32, 'cond_timeout': {'quick': 900, 'thorough': 3000}, 'path_timeout': 60,
          'bound': '%d message structures x %d instances each (2^%d presence choices x 9 repetition choices: once / twice / twice with a shortened second repetition, for two groups)' % (NS, NCHOICE, NBITS)},
+        {'name': 'zseg', 'fn': '_ob_zseg', 'parts': 16, 'cond_timeout': {'quick': 900, 'thorough': 3000}, 'path_timeout': 60,
+         'bound': '%d structures x 3 instances x a Z segment inserted after each of the first %d segments: flattening gives the input '
+                  'sequence, find_groups=False encodes identically' % (NS, ZMAXPOS)},
     ],
 }
